@@ -240,6 +240,10 @@ func (cb *CellBuffer) Resize(w, h int) {
 // If either the foreground or background are ColorNone, then the respective
 // color is unchanged.
 func (cb *CellBuffer) Fill(r rune, style Style) {
+	// as in SetContent: NUL reads back as a blank, store the blank
+	if r == rune(0) {
+		r = ' '
+	}
 	for i := range cb.cells {
 		c := &cb.cells[i]
 		if c.width > 1 && (c.currMain != r || len(c.currComb) > 0) {
